@@ -3,6 +3,7 @@ package main
 import (
 	"encoding/json"
 	"fmt"
+	"os"
 )
 
 // try: compile a source and run it on a text, print what came back
@@ -31,6 +32,17 @@ func init() {
 			fmt.Printf("%q %s\n", toText(m.Val), b)
 		}
 		fmt.Println("matches:", len(ms), "steps:", steps)
+		return 0
+	}
+}
+
+func init() {
+	subcommands["render"] = func(args []string) int {
+		var c Node
+		if err := json.NewDecoder(os.Stdin).Decode(&c); err != nil {
+			return 2
+		}
+		fmt.Println(renderProgram(c))
 		return 0
 	}
 }
